@@ -418,6 +418,16 @@ PROPS['C17']['trusted_base'] = ['Model/Ntv2.lean is a hand-written model of ntv2
                                 'its two interpolation kernels are proved equal to the regenerated text of the code; numpy '
                                 'round/matmul facts measured and modelled (rint(x*1e6)/1e6; left-to-right sums, exact for '
                                 'float32-exact fields)']
+PROPS['C17']['more_proof_modules'] += ['GeodeVerif.Proofs.C17c']
+PROPS['C17']['ntv2d_modules'] = ['GeodeVerif.Proofs.C17c']
+PROPS['C17']['needs_ntv2d'] = True
+PROPS['C17']['required_theorems'] += ['gen_ntv2_2d', 'gen_ntv2_2d_outside', 'gen_ntv2_2d_inside_never_raises', 'gen_ntv2_2d_forward',
+                                      'gen_ntv2_2d_reverse', 'gen_ntv2_2d_reverse_undoes_forward']
+PROPS['C17']['rule'] = ('regenerated: transform.ntv2_2d is translated on every run (translator/ntv2d2lean.py -> GenF/Ntv2d.lean, the '
+                        'interpolation result a parameter) and proved equal to the model (Proofs/C17c.lean: sign/unit of both shifts, '
+                        'error outside, never an error inside). ' + PROPS['C17']['rule'])
+PROPS['C17']['trusted_base'] += ['translator/ntv2d2lean.py (isinstance test as a Boolean, shifts[i] as components of the interpolation '
+                                 'result, `shifts[0] is None` as "no value")']
 PROPS['C15']['more_proof_modules'] = ['GeodeVerif.Proofs.C15b']
 PROPS['C15']['coord_modules'] = ['GeodeVerif.Proofs.C15b']
 PROPS['C15']['needs_coord'] = True
